@@ -286,6 +286,9 @@ fn features(p: &Phys, root: bool, out: &mut Vec<&'static str>) {
             if p.offset != 0 && p.kids.iter().any(|k| matches!(k.dt, DataType::Struct(_))) {
                 add("f:struct-off-nested");
             }
+            if p.kids.iter().any(|k| k.len < p.offset + p.len) {
+                add("f:struct-child-short");
+            }
             if p.kids.iter().any(|k| k.dt == DataType::Null) {
                 add("f:struct-null-child");
             }
@@ -296,6 +299,11 @@ fn features(p: &Phys, root: bool, out: &mut Vec<&'static str>) {
         DataType::Dictionary(..) => {
             if p.kids.first().map(|k| k.len == 0).unwrap_or(false) {
                 add("f:dict-empty-values");
+            }
+        }
+        DataType::Union(_, UnionMode::Sparse) => {
+            if p.offset != 0 || p.kids.iter().any(|k| k.len != p.len || k.offset != 0) {
+                add("f:sparse-union-child-len");
             }
         }
         DataType::FixedSizeList(_, 0) => add("f:fsl0"),
@@ -341,6 +349,21 @@ thread_local! {
     static OUT: RefCell<Option<ArrayRef>> = RefCell::new(None);
     /// further case lines produced while running a step (batches, other columns)
     static EXTRA: RefCell<Vec<(String, String)>> = RefCell::new(vec![]);
+    /// the number of rows the step's result must have (set by `apply`)
+    static EXPECT: RefCell<Option<usize>> = RefCell::new(None);
+    /// the pipeline cannot continue from this line (input unusable / output malformed)
+    static STOP: RefCell<bool> = RefCell::new(false);
+}
+fn expect_len(n: usize) {
+    EXPECT.with(|e| *e.borrow_mut() = Some(n));
+}
+fn stop() {
+    STOP.with(|e| *e.borrow_mut() = true);
+}
+fn loud(e: &ArrowError) {
+    if std::env::var("VERIF_LOUD").is_ok() {
+        eprintln!("ERR: {}", e);
+    }
 }
 fn oracle(s: String) {
     ORACLE.with(|o| o.borrow_mut().push(s));
@@ -479,6 +502,7 @@ fn apply(name: &str, seed: u64, a: &ArrayRef, desc: &str) -> Result<ArrayRef, Ar
     match name {
         "filter" => {
             let m = rand_mask(rng, n);
+            expect_len(m.iter().filter(|x| *x == Some(true)).count());
             if rng.chance(1, 4) {
                 // optimised predicate path
                 let p = arrow_select::filter::FilterBuilder::new(&m).optimize().build();
@@ -490,6 +514,7 @@ fn apply(name: &str, seed: u64, a: &ArrayRef, desc: &str) -> Result<ArrayRef, Ar
         "take" => {
             let m = if n == 0 { rng.usize(3) } else { rng.usize(n + 4) };
             let with_nulls = n == 0 || rng.chance(1, 3);
+            expect_len(m);
             let idx: Vec<Option<u64>> = (0..m).map(|_| if n == 0 || (with_nulls && rng.chance(1, 4)) { None } else { Some(rng.usize(n) as u64) }).collect();
             match rng.below(3) {
                 0 => arrow_select::take::take(a.as_ref(), &UInt32Array::from(idx.iter().map(|x| x.map(|v| v as u32)).collect::<Vec<_>>()), None),
@@ -507,6 +532,7 @@ fn apply(name: &str, seed: u64, a: &ArrayRef, desc: &str) -> Result<ArrayRef, Ar
                 })
                 .collect();
             let refs: Vec<&dyn Array> = parts.iter().map(|x| x.as_ref()).collect();
+            expect_len(parts.iter().map(|x| x.len()).sum());
             arrow_select::concat::concat(&refs)
         }
         "interleave" => {
@@ -522,9 +548,11 @@ fn apply(name: &str, seed: u64, a: &ArrayRef, desc: &str) -> Result<ArrayRef, Ar
                     idx.push((k, rng.usize(l)));
                 }
             }
+            expect_len(idx.len());
             arrow_select::interleave::interleave(&arrays, &idx)
         }
         "zip" => {
+            expect_len(n);
             let m = rand_mask(rng, n);
             match rng.below(3) {
                 0 if n > 0 => {
@@ -542,11 +570,18 @@ fn apply(name: &str, seed: u64, a: &ArrayRef, desc: &str) -> Result<ArrayRef, Ar
                 }
             }
         }
-        "nullif" => arrow_select::nullif::nullif(a.as_ref(), &rand_mask(rng, n)),
-        "shift" => arrow_select::window::shift(a.as_ref(), rng.range(-(n as i64) - 1, n as i64 + 1)),
+        "nullif" => {
+            expect_len(n);
+            arrow_select::nullif::nullif(a.as_ref(), &rand_mask(rng, n))
+        }
+        "shift" => {
+            expect_len(n);
+            arrow_select::window::shift(a.as_ref(), rng.range(-(n as i64) - 1, n as i64 + 1))
+        }
         "slice" => {
             let o = rng.usize(n + 1);
             let l = rng.usize(n - o + 1);
+            expect_len(l);
             Ok(a.slice(o, l))
         }
         "cast" => {
@@ -556,27 +591,40 @@ fn apply(name: &str, seed: u64, a: &ArrayRef, desc: &str) -> Result<ArrayRef, Ar
             }
             let to = rng.pick(&ts).clone();
             tag(format!("cast-to:{}", kind_tag(&to)));
+            expect_len(n);
             let opts = arrow_cast::CastOptions { safe: rng.chance(3, 4), ..Default::default() };
             arrow_cast::cast_with_options(a.as_ref(), &to, &opts)
         }
         "sort" => {
             let opts = Some(SortOptions { descending: rng.bool(), nulls_first: rng.bool() });
             match rng.below(3) {
-                0 => arrow_ord::sort::sort(a.as_ref(), opts),
-                1 => arrow_ord::sort::sort_limit(a.as_ref(), opts, Some(rng.usize(n + 2))),
+                0 => {
+                    expect_len(n);
+                    arrow_ord::sort::sort(a.as_ref(), opts)
+                }
+                1 => {
+                    let lim = rng.usize(n + 2);
+                    expect_len(n.min(lim));
+                    arrow_ord::sort::sort_limit(a.as_ref(), opts, Some(lim))
+                }
                 _ => {
+                    expect_len(n);
                     let idx = arrow_ord::sort::sort_to_indices(a.as_ref(), opts, None)?;
                     arrow_select::take::take(a.as_ref(), &idx, None)
                 }
             }
         }
-        "arith" => match rng.below(4) {
+        "arith" => {
+            expect_len(n);
+            match rng.below(4) {
             0 => arrow_arith::numeric::add_wrapping(a, a),
             1 => arrow_arith::numeric::neg_wrapping(a.as_ref()),
             2 => arrow_arith::numeric::mul_wrapping(a, &rotated(a, 1)?),
             _ => arrow_arith::numeric::sub_wrapping(a, &rotated(a, 2)?),
-        },
+            }
+        }
         "cmp" => {
+            expect_len(n);
             let r = rotated(a, 1 + rng.usize(2))?;
             let b = match rng.below(4) {
                 0 => arrow_ord::cmp::eq(a, &r)?,
@@ -587,7 +635,9 @@ fn apply(name: &str, seed: u64, a: &ArrayRef, desc: &str) -> Result<ArrayRef, Ar
             };
             Ok(Arc::new(b))
         }
-        "string" => match rng.below(5) {
+        "string" => {
+            expect_len(n);
+            match rng.below(5) {
             0 => arrow_string::substring::substring(a.as_ref(), rng.range(-3, 3), if rng.bool() { Some(rng.below(4)) } else { None }),
             1 => arrow_string::concat_elements::concat_elements_dyn(a.as_ref(), rotated(a, 1)?.as_ref()),
             2 => {
@@ -599,14 +649,17 @@ fn apply(name: &str, seed: u64, a: &ArrayRef, desc: &str) -> Result<ArrayRef, Ar
                 let p = like_pattern(&dt, *rng.pick(&["a", "z", "\u{20ac}"])).ok_or_else(|| no_support("contains"))?;
                 Ok(Arc::new(arrow_string::like::contains(a, &Scalar::new(p))?))
             }
-        },
+            }
+        }
         "rowconv" => {
+            expect_len(n);
             let conv = arrow_row::RowConverter::new(vec![arrow_row::SortField::new_with_options(dt.clone(), SortOptions { descending: rng.bool(), nulls_first: rng.bool() })])?;
             let rows = conv.convert_columns(&[a.clone()])?;
             let mut out = conv.convert_rows(rows.iter())?;
             Ok(out.remove(0))
         }
         "ipc" => {
+            expect_len(n);
             let other = rotated(a, 1)?;
             let schema = Arc::new(Schema::new(vec![Field::new("c0", dt.clone(), true), Field::new("c1", dt.clone(), true)]));
             let batch = RecordBatch::try_new(schema.clone(), vec![a.clone(), other])?;
@@ -634,24 +687,44 @@ fn apply(name: &str, seed: u64, a: &ArrayRef, desc: &str) -> Result<ArrayRef, Ar
         "json" => step_json(rng, desc),
         "csv" => step_csv(rng, desc),
         "build" => step_build(rng),
-        "bool" => match rng.below(3) {
+        "bool" => {
+            expect_len(n);
+            match rng.below(3) {
             0 => Ok(Arc::new(arrow_arith::boolean::is_null(a.as_ref())?)),
             1 => Ok(Arc::new(arrow_arith::boolean::is_not_null(a.as_ref())?)),
             _ => match a.as_boolean_opt() {
                 Some(b) => Ok(Arc::new(arrow_arith::boolean::not(b)?)),
                 None => Err(no_support("not")),
             },
-        },
+            }
+        }
         "norm" => {
             let d = a.to_data();
             match rng.below(3) {
-                0 => Ok(make_array(d)),
+                0 => {
+                    expect_len(n);
+                    Ok(make_array(d))
+                }
                 1 => {
+                    // `ArrayData::slice` is a safe public API: its result is a produced array too
                     let o = rng.usize(n + 1);
                     let l = rng.usize(n - o + 1);
-                    Ok(make_array(d.slice(o, l)))
+                    expect_len(l);
+                    let sl = d.slice(o, l);
+                    let kf = o > 0 && has_struct(d.data_type());
+                    if kf {
+                        tag("kf:arraydata-slice-struct".into());
+                    }
+                    emit_data(&sl, &format!("{}/dslice{}", desc, if kf { "!kf:arraydata-slice-struct" } else { "" }));
+                    Ok(make_array(sl))
                 }
-                _ => Ok(make_array(ArrayData::try_new(d.data_type().clone(), d.len(), d.nulls().map(|x| x.inner().sliced()), d.offset(), d.buffers().to_vec(), d.child_data().to_vec())?)),
+                _ => {
+                    expect_len(n);
+                    if d.offset() != 0 && d.nulls().is_some() {
+                        return Err(no_support("try_new with re-based bitmap"));
+                    }
+                    Ok(make_array(ArrayData::try_new(d.data_type().clone(), d.len(), d.nulls().map(|x| x.inner().sliced()), d.offset(), d.buffers().to_vec(), d.child_data().to_vec())?))
+                }
             }
         }
         _ => Err(no_support("unknown step")),
@@ -701,10 +774,19 @@ fn emit_batch(b: &RecordBatch, desc: &str, what: &str) {
     }
 }
 
+fn has_struct(dt: &DataType) -> bool {
+    matches!(dt, DataType::Struct(_)) || child_types(dt).iter().any(has_struct)
+}
+
 /// an additional produced array (not the one the pipeline continues with): validate + dump
 fn emit_array(c: &ArrayRef, desc: &str) {
+    match catch_unwind(AssertUnwindSafe(|| c.to_data())) {
+        Ok(d) => emit_data(&d, desc),
+        Err(_) => oracle("panic:to_data-extra".to_string()),
+    }
+}
+fn emit_data(d: &ArrayData, desc: &str) {
     let r = catch_unwind(AssertUnwindSafe(|| {
-        let d = c.to_data();
         if let Err(e) = d.validate_full() {
             oracle(format!("out-validate_full-err:{}:{}", desc.rsplit('/').next().unwrap_or(""), err_class(&e)));
         }
@@ -712,7 +794,7 @@ fn emit_array(c: &ArrayRef, desc: &str) {
             return None;
         }
         let op = if is_ext(d.data_type()) { "stepx" } else { "step" };
-        Some(format!("C01 {} {} end {} {}", op, desc, lt_token(d.data_type()), show_phys(&phys_of(&d))))
+        Some(format!("C01 {} {} end {} {}", op, desc, lt_token(d.data_type()), show_phys(&phys_of(d))))
     }));
     match r {
         Ok(Some(line)) => EXTRA.with(|e| e.borrow_mut().push((line, "extra-column".to_string()))),
@@ -1037,11 +1119,19 @@ fn run_case(line: &str) -> String {
             })) {
                 Ok((d, Ok(()))) => d,
                 Ok((_, Err(e))) => {
-                    oracle(format!("in-validate_full-err:{}", err_class(&e)));
-                    tag("res:in-invalid".into());
+                    loud(&e);
+                    stop();
+                    if desc.ends_with("/gen") {
+                        // a generated (spec-valid) input the real validator rejects: C09's business, not a produced array
+                        tag("res:gen-rejected-by-validate_full".into());
+                    } else {
+                        oracle(format!("in-validate_full-err:{}", err_class(&e)));
+                        tag("res:in-invalid".into());
+                    }
                     return "wf=1".into();
                 }
                 Err(_) => {
+                    stop();
                     oracle("panic:build".into());
                     return "wf=1".into();
                 }
@@ -1054,6 +1144,7 @@ fn run_case(line: &str) -> String {
             })) {
                 Ok(a) => a,
                 Err(_) => {
+                    stop();
                     oracle("panic:make_array".into());
                     tag("res:panic".into());
                     classify_panic("make_array", &fs, &dt);
@@ -1065,6 +1156,7 @@ fn run_case(line: &str) -> String {
                 return "wf=1".into();
             }
             // 3. the step
+            EXPECT.with(|e| *e.borrow_mut() = None);
             match catch_unwind(AssertUnwindSafe(|| apply(name, seed, &arr, desc))) {
                 Err(_) => {
                     oracle(format!("panic:{}", name));
@@ -1077,17 +1169,32 @@ fn run_case(line: &str) -> String {
                 Ok(Ok(out)) => {
                     tag("res:ok".into());
                     // 4. the output must be valid for the real validator, and usable
+                    if let Some(want) = EXPECT.with(|e| e.borrow_mut().take()) {
+                        if out.len() != want {
+                            oracle(format!("len-mismatch:{}:{}vs{}", name, out.len(), want));
+                            classify_out(name, &fs, &dt, out.data_type());
+                            stop();
+                        }
+                    }
                     match catch_unwind(AssertUnwindSafe(|| {
                         let v = out.to_data().validate_full();
-                        format_all(out.as_ref());
-                        let _ = out.logical_nulls().map(|x| x.null_count());
+                        if v.is_ok() {
+                            format_all(out.as_ref());
+                            let _ = out.logical_nulls().map(|x| x.null_count());
+                        }
                         v
                     })) {
                         Ok(Ok(())) => {}
-                        Ok(Err(e)) => oracle(format!("out-validate_full-err:{}:{}", name, err_class(&e))),
+                        Ok(Err(e)) => {
+                            loud(&e);
+                            oracle(format!("out-validate_full-err:{}:{}", name, err_class(&e)));
+                            classify_out(name, &fs, &dt, out.data_type());
+                            stop();
+                        }
                         Err(_) => {
                             oracle(format!("panic:use-output:{}", name));
-                            classify_panic("use-output", &fs, &dt);
+                            classify_out(name, &fs, &dt, out.data_type());
+                            stop();
                         }
                     }
                     OUT.with(|o| *o.borrow_mut() = Some(out));
@@ -1099,17 +1206,50 @@ fn run_case(line: &str) -> String {
     }
 }
 
+/// a zero-width element type: FixedSizeBinary(0) or FixedSizeList(_, 0)
+fn has_fsb0(dt: &DataType) -> bool {
+    matches!(dt, DataType::FixedSizeBinary(0) | DataType::FixedSizeList(_, 0)) || child_types(dt).iter().any(has_fsb0)
+}
+fn has_view(dt: &DataType) -> bool {
+    matches!(dt, DataType::Utf8View | DataType::BinaryView) || child_types(dt).iter().any(has_view)
+}
+fn kf(s: String) {
+    let already = TAGS.with(|t| t.borrow().contains(&s));
+    if !already {
+        tag(s);
+    }
+}
+
 /// precise tags for the panics that are known defects (keys of known_findings.txt)
-fn classify_panic(step: &str, fs: &[&'static str], _dt: &DataType) {
+fn classify_panic(step: &str, fs: &[&'static str], dt: &DataType) {
     let has = |f: &str| fs.contains(&f);
+    if step == "make_array" && (has("f:struct-off-nested") || has("f:struct-child-short")) {
+        kf("kf:arraydata-slice-struct".into());
+    }
     if has("f:ree-runends-off") {
-        tag(format!("kf:ree-runends-child-offset:{}", step));
+        kf("kf:ree-runends-child-offset".into());
     }
-    if has("f:struct-off-nested") && step == "make_array" {
-        tag("kf:make-array-nested-struct-offset".into());
+    if step == "cast" && has("f:sparse-union-child-len") {
+        kf("kf:sparse-union-from-arraydata".into());
     }
-    if (has("f:struct-null-child") || has("f:struct-fsb0-child") || has("f:struct-nofields")) && matches!(step, "take" | "filter" | "sort" | "interleave" | "zip" | "nullif" | "shift") {
-        tag(format!("kf:select-struct-zero-width-child:{}", step));
+    if step == "take" && matches!(dt, DataType::Union(_, UnionMode::Dense)) {
+        kf("kf:take-dense-union-null-index".into());
+    }
+    if has_fsb0(dt) {
+        kf("kf:zero-width-select".into());
+    }
+}
+
+/// the same for malformed / wrong-length outputs
+fn classify_out(step: &str, fs: &[&'static str], dt: &DataType, out_dt: &DataType) {
+    if fs.contains(&"f:sparse-union-child-len") {
+        kf("kf:sparse-union-from-arraydata".into());
+    }
+    if has_fsb0(dt) || has_fsb0(out_dt) {
+        kf("kf:zero-width-select".into());
+    }
+    if step == "zip" && has_view(dt) {
+        kf("kf:zip-view-inline-buffer-index".into());
     }
 }
 
@@ -1428,16 +1568,20 @@ fn main() {
         quiet_panics();
     }
     let mut sink = Sink::new(&args.out);
-    // run one case line (plus the extra lines it spawns); returns the step's output
-    fn emit(sink: &mut Sink, line: String, tags: &str) -> Option<ArrayRef> {
+    // run one case line (plus the extra lines it spawns); returns the step's output, whether the
+    // pipeline must stop here, and the known-finding tags of the step
+    fn emit(sink: &mut Sink, line: String, tags: &str) -> (Option<ArrayRef>, bool, Vec<String>) {
         ORACLE.with(|o| o.borrow_mut().clear());
         TAGS.with(|o| o.borrow_mut().clear());
         EXTRA.with(|o| o.borrow_mut().clear());
+        STOP.with(|o| *o.borrow_mut() = false);
         let a = guarded(|| run_case(&line));
         let out = OUT.with(|o| o.borrow_mut().take());
+        let stopped = STOP.with(|o| *o.borrow());
         let fails: Vec<String> = ORACLE.with(|o| o.borrow_mut().drain(..).collect());
         let more: Vec<String> = TAGS.with(|o| o.borrow_mut().drain(..).collect());
         let extra: Vec<(String, String)> = EXTRA.with(|o| o.borrow_mut().drain(..).collect());
+        let kfs: Vec<String> = more.iter().filter(|t| t.starts_with("kf:")).cloned().collect();
         let mut tags = tags.to_string();
         for u in more {
             tags.push(' ');
@@ -1456,15 +1600,15 @@ fn main() {
         for (l, t) in extra {
             let _ = emit(sink, l, &t);
         }
-        out
+        (out, stopped, kfs)
     }
     if args.mode == "replay" {
         for line in read_cases(args.replay.as_ref().unwrap()) {
-            emit(&mut sink, line, "replay");
+            let _ = emit(&mut sink, line, "replay");
         }
     } else {
         for l in WITNESSES.iter() {
-            emit(&mut sink, l.to_string(), "witness nt");
+            let _ = emit(&mut sink, l.to_string(), "witness nt");
         }
         let grid = type_grid();
         let n = n_cases(&args, 2500, 100000);
@@ -1477,8 +1621,9 @@ fn main() {
             let mut cur = gen_layout(&mut rng, &dt, rows, off, false, exotic);
             let stages = 1 + rng.usize(6);
             let mut prev = "gen".to_string();
+            let mut force_end = false;
             for stage in 0..=stages {
-                let last = stage == stages;
+                let last = stage == stages || force_end;
                 let name = *rng.pick(&STEPS);
                 let step = if last { "end".to_string() } else { format!("{}:{}", name, rng.below(1 << 32)) };
                 let desc = format!("{}.{}.{}/{}/{}", args.seed, idx, stage, gname, prev);
@@ -1486,24 +1631,33 @@ fn main() {
                 let line = format!("C01 {} {} {} {} {}", op, desc, step, lt_token(&cur.dt), show_phys(&cur));
                 let mut tags = format!("stage:{} grid:{}{}{}", stage, gname, if exotic { " lay:exotic" } else { "" }, if cur.len > 0 { " nt" } else { "" });
                 if stage > 0 {
-                    tags.push_str(&format!(" from:{}", prev));
+                    tags.push_str(&format!(" from:{}", prev.split('!').next().unwrap()));
                 }
-                let out = emit(&mut sink, line, &tags);
+                let (out, stopped, kfs) = emit(&mut sink, line, &tags);
                 if last {
                     break;
                 }
                 if let Some(out) = out {
-                    let out = if out.len() > MAX_ROWS { out.slice(0, MAX_ROWS) } else { out };
+                    let out = if out.len() > MAX_ROWS && !stopped { out.slice(0, MAX_ROWS) } else { out };
                     match catch_unwind(AssertUnwindSafe(|| phys_of(&out.to_data()))) {
                         Ok(p) => {
                             cur = p;
                             prev = name.to_string();
+                            // a malformed output is still sent to the Lean side, as the last line of the
+                            // pipeline, carrying the classification of the step that produced it
+                            for k in kfs.iter() {
+                                prev.push('!');
+                                prev.push_str(k);
+                            }
+                            force_end = stopped;
                         }
                         Err(_) => {
                             sink.oracle_failure(format!("C01 step {} dump", desc), format!("panic:to_data-after:{}", name), &tags);
                             break;
                         }
                     }
+                } else if stopped {
+                    break;
                 }
             }
         }
